@@ -37,8 +37,33 @@ DOCS = [
 ]
 MATCH_Q = ["$.events[*].payload", "$.events[*]", "$..payload", "$", "$.a", "$.b", "$[0]", "$[*]", "$.users[*]", "$.users", "$..b", "$.e", "$.d", "$[4]", "$['1']", "$[2]", "$..tags", "$.nosuch"]
 REL_Q = ["$.a", "$.b", "$.x", "$.name", "$.tags", "$.tags[0]", "$.tags[1]", "$[0]", "$[1]", "$[2]", "$[0:2]", "$[1:]", "$[*]", "$.*", "$.b[0]", "$.b[1:]", "$.b[*]",
-         "$.c", "$.c[1]", "$.c[0, 2]", "$[0].a", "$[1].b[0]", "$[*].a", "$.users[*].name", "$.users[0,2].name", "$.users[1:].tags[0]", "$['2'][1:3]", "$['2'][0]",
+         "$[-1].a", "$[-1].b", "$[-4].b[0]", "$[-4].a", "$[-5].a", "$[1].a", "$[-1]", "$.users[-1].name", "$.users[2].tags", "$.users[-3].tags[-1]", "$.b[-1]", "$.c[-3]", "$.tags[-1]",
+         "$[-2].x", "$[1].y", "$[-1].x", "$.c", "$.c[1]", "$.c[0, 2]", "$[0].a", "$[1].b[0]", "$[*].a", "$.users[*].name", "$.users[0,2].name", "$.users[1:].tags[0]", "$['2'][1:3]", "$['2'][0]",
          "$.e", "$.f", "$.g", "$.h", "$.i", "$..name", "$[*].b[0]", "$.nosuch", "$.d", "$['1']", "$.n"]
+
+
+def path_tokens(path):
+    """The location a normalized path spells, read independently of match.parts."""
+    i, out = 1, []
+    while i < len(path):
+        if path[i] != "[":
+            raise ValueError(path)
+        if path[i + 1] == "'":
+            j, buf = i + 2, []
+            while path[j] != "'":
+                if path[j] == "\\":
+                    n = path[j + 1]
+                    if n == "u":
+                        buf.append(chr(int(path[j + 2:j + 6], 16))); j += 6
+                    else:
+                        buf.append({"b": "\b", "f": "\f", "n": "\n", "r": "\r", "t": "\t"}.get(n, n)); j += 2
+                else:
+                    buf.append(path[j]); j += 1
+            out.append("".join(buf)); i = j + 2
+        else:
+            j = path.index("]", i)
+            out.append(int(path[i + 1:j])); i = j + 1
+    return tuple(out)
 
 
 def relations(parts_list):
@@ -140,7 +165,11 @@ def evaluate(ctx, cases):
             if isinstance(m.obj, (dict, list)):
                 for q in c["sel"]:
                     for r in jsonpath.finditer(q, m.obj):
-                        sels.append((tuple(r.parts), r.obj))
+                        try:
+                            loc = path_tokens(r.path)
+                        except (ValueError, IndexError):
+                            loc = tuple(r.parts)
+                        sels.append((loc, r.obj))
             per_match.append((m, sels))
         for m, sels in per_match:
             try:
